@@ -54,7 +54,7 @@ def main():
     ap.add_argument("--name", default=None, help="directory name under /verif/seeded (default: the id)")
     a = ap.parse_args()
     pid = a.id.upper()
-    src = a.src or f"/tmp/seed/{pid}/seed_out"
+    src = os.path.abspath(a.src or f"/tmp/seed/{pid}/seed_out")
     patch = os.path.join(src, "patch.diff")
     demo = os.path.join(src, "demo.py")
     if not (os.path.exists(patch) and os.path.exists(demo)):
